@@ -185,8 +185,9 @@ def handle_apply(args):
         else:
             output_path = args.original.with_name(f"{args.original.stem}_redlined.docx")
 
+    result_bytes = engine.save_to_stream().getvalue()
     with open(output_path, "wb") as f:
-        f.write(engine.save_to_stream().getvalue())
+        f.write(result_bytes)
 
     print(f"✅ Saved to {output_path}", file=sys.stderr)
     print(f"Stats: {applied} applied, {skipped} skipped.", file=sys.stderr)
